@@ -118,57 +118,64 @@ IsSeqLike(e) == e.k \in {"seq", "src"}
 (* mask = ids treated as absent (used to state prefix / sibling            *)
 (* independence).                                                          *)
 (***************************************************************************)
-Cur(c) == [err |-> FALSE, key |-> "", ctx |-> c]
-ErrCur(key) == [err |-> TRUE, key |-> key, ctx |-> Empty]
+\* at = id of the SetContext whose formatting key could not be resolved
+\* un = keys found unresolved so far by the lenient walk (mode = "lenient": an unresolved
+\* SetContext is noted and skipped instead of latching; used only to say which keys an error
+\* message may name)
+Cur(c) == [err |-> FALSE, key |-> "", ctx |-> c, at |-> 0, un |-> {}]
+ErrCur(key, e) == [err |-> TRUE, key |-> key, ctx |-> Empty, at |-> e, un |-> {key}]
 
-RECURSIVE ExpList(_, _, _, _, _, _), ExpBranches(_, _, _, _, _, _, _)
+RECURSIVE ExpList(_, _, _, _, _, _, _), ExpBranches(_, _, _, _, _, _, _, _)
 \* walk the children ch[n..] of a sequence
-ExpList(E, pol, mask, ch, cur, acc) ==
+ExpList(E, pol, mask, ch, cur, acc, mode) ==
   IF ch = <<>> THEN [cur |-> cur, acc |-> acc]
   ELSE LET e == Head(ch) rest == Tail(ch) IN
-    IF e \in mask THEN ExpList(E, pol, mask, rest, cur, acc)
+    IF e \in mask THEN ExpList(E, pol, mask, rest, cur, acc, mode)
     ELSE LET acc1 == (e :> cur) @@ acc IN
       CASE E[e].k = "set" ->
              LET r == Eval(E[e].v, cur.ctx)
                  nxt == IF cur.err THEN cur
-                        ELSE IF r.ok THEN Cur(Put(cur.ctx, E[e].p, r.v)) ELSE ErrCur(r.key)
-             IN ExpList(E, pol, mask, rest, nxt, acc1)
+                        ELSE IF r.ok THEN [cur EXCEPT !.ctx = Put(cur.ctx, E[e].p, r.v)]
+                        ELSE IF mode = "lenient" THEN [cur EXCEPT !.un = @ \cup {r.key}]
+                        ELSE ErrCur(r.key, e)
+             IN ExpList(E, pol, mask, rest, nxt, acc1, mode)
         [] IsSeqLike(E[e]) ->
-             LET r == ExpList(E, pol, mask, E[e].ch, cur, acc1)
-             IN ExpList(E, pol, mask, rest, r.cur, r.acc)
+             LET r == ExpList(E, pol, mask, E[e].ch, cur, acc1, mode)
+             IN ExpList(E, pol, mask, rest, r.cur, r.acc, mode)
         [] E[e].k = "split" ->
-             LET r == ExpBranches(E, pol, mask, E[e].ch, cur, acc1, <<>>)
+             LET r == ExpBranches(E, pol, mask, E[e].ch, cur, acc1, <<>>, mode)
                  outs == r.outs
                  bad == {j \in 1..Len(outs) : outs[j].err}
                  fam == [j \in 1..Len(outs) |-> outs[j].ctx]
                  nxt == IF cur.err THEN cur
                         ELSE IF bad # {} THEN outs[CHOOSE j \in bad : \A j2 \in bad : j <= j2]
-                        ELSE IF outs = <<>> THEN (IF pol = "code" THEN Cur(Empty) ELSE cur)
-                        ELSE Cur(InterAll(fam))
-             IN ExpList(E, pol, mask, rest, nxt, r.acc)
-        [] OTHER -> ExpList(E, pol, mask, rest, cur, acc1)
+                        ELSE LET un == cur.un \cup UNION {outs[j].un : j \in 1..Len(outs)} IN
+                             IF outs = <<>> THEN (IF pol = "code" THEN [Cur(Empty) EXCEPT !.un = un] ELSE cur)
+                             ELSE [Cur(InterAll(fam)) EXCEPT !.un = un]
+             IN ExpList(E, pol, mask, rest, nxt, r.acc, mode)
+        [] OTHER -> ExpList(E, pol, mask, rest, cur, acc1, mode)
 
 \* every branch receives what the Split received (after a branch with an unresolved key
 \* nothing is fixed any more); outs = exported contexts that count
-ExpBranches(E, pol, mask, bs, cur, acc, outs) ==
+ExpBranches(E, pol, mask, bs, cur, acc, outs, mode) ==
   IF bs = <<>> THEN [outs |-> outs, acc |-> acc]
   ELSE LET b == Head(bs)
            bad == {j \in 1..Len(outs) : outs[j].err}
            bin == IF bad = {} THEN cur ELSE outs[CHOOSE j \in bad : \A j2 \in bad : j <= j2]
        IN
-    IF b \in mask THEN ExpBranches(E, pol, mask, Tail(bs), cur, acc, outs)
+    IF b \in mask THEN ExpBranches(E, pol, mask, Tail(bs), cur, acc, outs, mode)
     ELSE IF E[b].k = "acc"
     THEN ExpBranches(E, pol, mask, Tail(bs), cur, (b :> bin) @@ acc,
-                     IF pol = "identity" THEN Append(outs, bin) ELSE outs)
-    ELSE LET r == ExpList(E, pol, mask, E[b].ch, bin, (b :> bin) @@ acc)
-         IN ExpBranches(E, pol, mask, Tail(bs), cur, r.acc, Append(outs, r.cur))
+                     IF pol = "identity" THEN Append(outs, bin) ELSE outs, mode)
+    ELSE LET r == ExpList(E, pol, mask, E[b].ch, bin, (b :> bin) @@ acc, mode)
+         IN ExpBranches(E, pol, mask, Tail(bs), cur, r.acc, Append(outs, r.cur), mode)
 
 \* Walk of the completed component with root r that receives context c:
 \* [cur |-> what r exports, acc |-> In for r and everything below it]
 Walk(E, pol, mask, r, c) ==
   IF E[r].k = "split"
-  THEN LET x == ExpList(E, pol, mask, <<r>>, Cur(c), <<>>) IN x
-  ELSE IF IsSeqLike(E[r]) THEN ExpList(E, pol, mask, E[r].ch, Cur(c), (r :> Cur(c)))
+  THEN LET x == ExpList(E, pol, mask, <<r>>, Cur(c), <<>>, "strict") IN x
+  ELSE IF IsSeqLike(E[r]) THEN ExpList(E, pol, mask, E[r].ch, Cur(c), (r :> Cur(c)), "strict")
   ELSE [cur |-> Cur(c), acc |-> (r :> Cur(c))]
 
 \* what the node n exports when it receives in (a cur record)
@@ -176,8 +183,13 @@ RECURSIVE Below(_, _)
 Below(E, n) == {n} \cup UNION {Below(E, E[n].ch[j]) : j \in 1..Len(E[n].ch)}
 
 OutOf(E, pol, n, in) ==
-  IF E[n].k = "split" THEN ExpList(E, pol, {}, <<n>>, in, <<>>).cur
-  ELSE ExpList(E, pol, {}, E[n].ch, in, <<>>).cur
+  IF E[n].k = "split" THEN ExpList(E, pol, {}, <<n>>, in, <<>>, "strict").cur
+  ELSE ExpList(E, pol, {}, E[n].ch, in, <<>>, "strict").cur
+\* every formatting key that is unresolvable somewhere below n when n receives in
+\* (the first one is OutOf(..).key)
+Unresolved(E, pol, n, in) ==
+  IF E[n].k = "split" THEN ExpList(E, pol, {}, <<n>>, in, <<>>, "lenient").cur.un
+  ELSE ExpList(E, pol, {}, E[n].ch, in, <<>>, "lenient").cur.un
 
 (***************************************************************************)
 (* Expected observations of one element given In = acc[i].                 *)
@@ -189,7 +201,7 @@ NameOf(E, i, in) == IF in.err THEN [free |-> TRUE, ok |-> FALSE, s |-> <<>>]
                          [free |-> FALSE, ok |-> r.ok, s |-> r.s]
 
 (***************************************************************************)
-(* Run-time: one value (0, {"rt": 0}) enters; contexts of the values that leave.  *)
+(* Run-time: two values (0, {"rt": 0}), (0, {"rt": 1}) enter; contexts of the values that leave.  *)
 (* seen[i] = static context element i holds (for ucfs and mf).             *)
 (* UpdateContextFromStatic merges its static context into the run-time     *)
 (* one; MakeFilename formats with static context overridden (top level) by *)
@@ -207,6 +219,8 @@ MFStep(tpl, s, rc) ==
 
 \* the run-time context of the one value that enters (a key that is not a static key)
 RT0 == Dict("rt" :> Leaf("int", <<"0">>))
+RT1 == Dict("rt" :> Leaf("int", <<"1">>))
+RTIn == <<RT0, RT1>>
 RECURSIVE RunList(_, _, _, _), RunBranches(_, _, _, _)
 MapSeq(f(_), s) == [j \in 1..Len(s) |-> f(s[j])]
 RunList(E, seen, ch, vals) ==
@@ -221,11 +235,11 @@ RunBranches(E, seen, bs, vals) ==
   IF bs = <<>> THEN <<>>
   ELSE LET b == Head(bs) IN
     (CASE E[b].k = "acc" -> IF vals = <<>> THEN <<Empty>> ELSE <<vals[Len(vals)]>>
-       [] E[b].k = "src" -> RunList(E, seen, E[b].ch, <<RT0>>)
+       [] E[b].k = "src" -> RunList(E, seen, E[b].ch, RTIn)
        [] OTHER -> RunList(E, seen, E[b].ch, vals)) \o RunBranches(E, seen, Tail(bs), vals)
 RunRoot(E, seen) == LET r == Len(E) IN
-  IF E[r].k = "split" THEN RunBranches(E, seen, E[r].ch, <<RT0>>)
-  ELSE RunList(E, seen, E[r].ch, <<RT0>>)
+  IF E[r].k = "split" THEN RunBranches(E, seen, E[r].ch, RTIn)
+  ELSE RunList(E, seen, E[r].ch, RTIn)
 
 Range(s) == {s[j] : j \in 1..Len(s)}
 =============================================================================
